@@ -52,6 +52,11 @@ def gen_scenario(rng, small=False):
                     if t.pop("eternal", None):
                         t["iterations"] = rng.randint(1, 4)
             sched.append({"par": tasks, "clients": ov})
+    # a task without any loop control (no iterations, no time period) runs exactly once: leave the iteration count out sometimes
+    for e in sched:
+        for t in ([e["leaf"]] if "leaf" in e else e["par"]):
+            if t.get("iterations") and not t.get("eternal") and rng.random() < 0.15:
+                t["iterations"] = None
     svc = {}
     for e in sched:
         for t in ([e["leaf"]] if "leaf" in e else e["par"]):
@@ -257,6 +262,13 @@ def _jcol(cfg, w, m):
     return jp.id if isinstance(jp, driver.JoinPoint) else -1
 
 
+def _iters(t):
+    """requests per allocation of a task that ends by itself: its iteration count, 1 if it has no loop control at all; None = eternal"""
+    if t.get("eternal"):
+        return None
+    return t.get("iterations") or 1
+
+
 def budget(scenario):
     total = 0.0
     for e in scenario["schedule"]:
@@ -343,10 +355,10 @@ def run(ctx, case):
             e = sc["schedule"][elem_of[tname]]
             has_cb = "par" in e and any(x.get("cp") or x.get("acp") for x in e["par"])
             overcommitted = "par" in e and e.get("clients") is not None and e["clients"] < sum(x["clients"] for x in e["par"])
-            if t.get("iterations") and (not has_cb or (t.get("cp") and not overcommitted)):
+            if _iters(t) and (not has_cb or (t.get("cp") and not overcommitted)):
                 # (in an over-committed element the worker-local completion flag makes later columns of the same element be
                 #  skipped — the documented skip — including later allocations of the completing task itself; not checked here)
-                want = n * t["iterations"]
+                want = n * _iters(t)
                 if reqs.get((ci, tname), 0) != want:
                     ctx.fail(shape + ":cut-short", f"client {ci} issued {reqs.get((ci, tname), 0)} requests of task {tname}, expected {want}", want, reqs.get((ci, tname), 0))
         # completed-by: any — the element ends when the FIRST task to finish is done, so when it has ended at least one of its
@@ -356,8 +368,24 @@ def run(ctx, case):
                 overcommitted = e.get("clients") is not None and e["clients"] < sum(x["clients"] for x in e["par"])
                 if overcommitted:
                     continue
-                finished = [(ci, tn) for (ci, tn), n in alloc_count.items() if elem_of[tn] == ei and spec[tn].get("iterations")
-                            and reqs.get((ci, tn), 0) == n * spec[tn]["iterations"]]
+                finished = [(ci, tn) for (ci, tn), n in alloc_count.items() if elem_of[tn] == ei and _iters(spec[tn])
+                            and reqs.get((ci, tn), 0) == n * _iters(spec[tn])]
+                # … and no later than that: once the first task allocation has finished, the others are told to complete at the
+                # finisher's next poll; nobody starts another request of this element much later than that
+                if finished:
+                    ends = {}
+                    for r in sim.request_log:
+                        if elem_of.get(r["task"]) == ei:
+                            k = (r["client"], r["task"])
+                            ends.setdefault(k, []).append(r)
+                    t_first = min(max(x["end"] for x in ends[k]) for k in finished if k in ends) if any(k in ends for k in finished) else None
+                    if t_first is not None:
+                        poll = 1.0 if sc.get("test_mode", True) else 6.0
+                        bound = poll + 1.5 + 2 * sc.get("max_wakeup_delay", 0.0) + sc.get("exec_start_delay", 0.0)
+                        late = [(x["client"], x["task"], x["start"]) for k, rs in ends.items() for x in rs if x["start"] > t_first + bound]
+                        if late:
+                            ctx.fail(shape + ":any-not-ended-by-first-finisher", f"element {ei} (completed-by any): requests were still started more than {bound} s after "
+                                     f"its first task allocation had finished at t={t_first}", f"no request start after {t_first + bound}", late[:4])
                 if not finished:
                     ctx.fail(shape + ":any-ended-before-a-task-finished", f"element {ei} (completed-by any) ended although none of its tasks had run to its end",
                              "at least one finished task allocation", {f"{ci}/{tn}": reqs.get((ci, tn), 0) for (ci, tn) in alloc_count if elem_of[tn] == ei})
